@@ -10,6 +10,7 @@ package main
 //	fetch-partial <section> <data> <begin|~> <count|~>           ItemBodyLiteral + WithPartial + String
 //	fetch-sect    <lit> <path> <kind> <names> <b|~> <c|~> <cttab>  fetchAttributeBodySection / fetchRFC822*
 //	fetch-rel     <lit> <path> <cttab> <expect>                  the sections of one message part, side by side
+//	fetch-partial-raw / fetch-sect-raw: the same two with offsets/counts outside the parser's range (not judged)
 //
 // Bytes are lower-case hex, `~` = empty byte string; lists are comma separated, `-` = empty list;
 // path = `1.2.3` or `-`; <cttab> = `raw:class;...` (class o | r | m:<boundary>) is the
@@ -667,7 +668,7 @@ func r8genPath(r *Rng, m r8msg) []int {
 	n := r.Range(1, 3)
 	p := make([]int, n)
 	for i := range p {
-		p[i] = Pick(r, []int{1, 1, 1, 2, 2, 3, 4, 0, -1, 2147483648, 9223372036854775807})
+		p[i] = Pick(r, []int{1, 1, 1, 2, 2, 3, 4, 0, -1, 2147483648, 4294967295})
 	}
 	return p
 }
@@ -702,26 +703,39 @@ func r8genNames(r *Rng) [][]byte {
 	return out
 }
 
-// r8boundary draws offsets/counts from the boundary values of a literal of length n.
-func r8boundaryVal(r *Rng, n int, allowNeg bool) int64 {
-	const maxI = int64(1<<63 - 1)
-	vals := []int64{0, 1, int64(n) - 1, int64(n), int64(n) + 1, 2, int64(n / 2), 1 << 31, 1<<31 - 1, 1 << 32, maxI, maxI - 1, maxI - int64(n) + 1, maxI - int64(n), maxI - int64(n/2)}
-	if allowNeg {
-		vals = append(vals, -1, -maxI-1, -int64(n))
+// r8boundaryVal draws offsets/counts from the boundary values of a literal of length n. With raw=false the
+// values stay in the range the command parser accepts since fix d71238c (ParseNumber: 0..2^32-1); with
+// raw=true the whole int64 range including overflowing sums and negative numbers is used (the unexported
+// WithPartial outside the parser's range: compared model against code only, not judged).
+func r8boundaryVal(r *Rng, n int, raw, allowNeg bool) int64 {
+	const maxU32 = int64(1<<32 - 1)
+	vals := []int64{0, 1, int64(n) - 1, int64(n), int64(n) + 1, 2, int64(n / 2), 1 << 31, 1<<31 - 1, maxU32, maxU32 - 1, maxU32 - int64(n), maxU32 - int64(n/2)}
+	if raw {
+		const maxI = int64(1<<63 - 1)
+		vals = append(vals, 1<<32, maxI, maxI-1, maxI-int64(n)+1, maxI-int64(n), maxI-int64(n/2))
+		if allowNeg {
+			vals = append(vals, -1, -maxI-1, -int64(n))
+		}
 	}
-	return Pick(r, vals)
+	v := Pick(r, vals)
+	if !raw && v < 0 {
+		v = 0
+	}
+	return v
 }
 
-func r8genPartial(r *Rng, n int) (string, string) {
+func r8genPartial(r *Rng, n int, raw bool) (string, string) {
 	if r.Chance(1, 3) {
 		return "~", "~"
 	}
-	// offsets from the wire parser are non-negative unless ParseNumber wrapped; both are generated
-	b := r8boundaryVal(r, n, r.Chance(1, 8))
+	b := r8boundaryVal(r, n, raw, r.Chance(1, 8))
 	if b < 0 && !r.Chance(1, 2) {
 		b = 0
 	}
-	c := r8boundaryVal(r, n, r.Chance(1, 10))
+	c := r8boundaryVal(r, n, raw, r.Chance(1, 10))
+	if !raw && c < 1 {
+		c = 1 // count is an nz-number
+	}
 	return strconv.FormatInt(b, 10), strconv.FormatInt(c, 10)
 }
 
@@ -762,43 +776,47 @@ func r8genSplice(r *Rng, n int, w io.Writer, st *Stats) {
 	}
 }
 
-func r8genPartialOps(r *Rng, n int, w io.Writer, st *Stats) {
-	for i := 0; i < n; i++ {
-		size := Pick(r, []int{0, 1, 2, 3, 5, 10, 64, 300})
-		data := make([]byte, size)
-		for k := range data {
-			data[k] = byte(r.Intn(256))
+func r8genPartialStream(name string, raw bool) func(r *Rng, n int, w io.Writer, st *Stats) {
+	return func(r *Rng, n int, w io.Writer, st *Stats) {
+		for i := 0; i < n; i++ {
+			size := Pick(r, []int{0, 1, 2, 3, 5, 10, 64, 300})
+			data := make([]byte, size)
+			for k := range data {
+				data[k] = byte(r.Intn(256))
+			}
+			b, c := r8genPartial(r, size, raw)
+			sec := Pick(r, []string{"", "TEXT", "1.2.HEADER", "HEADER.FIELDS (A B)"})
+			st.Inc(fmt.Sprintf("partial.size=%d", size))
+			fmt.Fprintf(w, "%s %s %s %s %s\n", name, r8hex([]byte(sec)), r8hex(data), b, c)
 		}
-		b, c := r8genPartial(r, size)
-		sec := Pick(r, []string{"", "TEXT", "1.2.HEADER", "HEADER.FIELDS (A B)"})
-		st.Inc(fmt.Sprintf("partial.size=%d", size))
-		fmt.Fprintf(w, "fetch-partial %s %s %s %s\n", r8hex([]byte(sec)), r8hex(data), b, c)
 	}
 }
 
 var r8kinds = []string{"-", "-", "MIME", "HEADER", "TEXT", "FIELDS", "FIELDS.NOT", "RFC822", "RFC822.HEADER", "RFC822.TEXT"}
 
-func r8genFetchSect(r *Rng, n int, w io.Writer, st *Stats) {
-	for i := 0; i < n; i++ {
-		m := r8genMsg(r, st, n >= 20000 && i%2000 == 1999)
-		kind := Pick(r, r8kinds)
-		p := r8genPath(r, m)
-		names := "-"
-		b, c := "~", "~"
-		switch {
-		case strings.HasPrefix(kind, "RFC822"):
-			p = nil
-		case kind == "MIME" && len(p) == 0:
-			kind = "HEADER" // BODY[MIME] does not parse without a part
+func r8genFetchSectStream(name string, raw bool) func(r *Rng, n int, w io.Writer, st *Stats) {
+	return func(r *Rng, n int, w io.Writer, st *Stats) {
+		for i := 0; i < n; i++ {
+			m := r8genMsg(r, st, n >= 20000 && i%2000 == 1999)
+			kind := Pick(r, r8kinds)
+			p := r8genPath(r, m)
+			names := "-"
+			b, c := "~", "~"
+			switch {
+			case strings.HasPrefix(kind, "RFC822"):
+				p = nil
+			case kind == "MIME" && len(p) == 0:
+				kind = "HEADER" // BODY[MIME] does not parse without a part
+			}
+			if strings.HasPrefix(kind, "FIELDS") {
+				names = r8hexList(r8genNames(r))
+			}
+			if !strings.HasPrefix(kind, "RFC822") {
+				b, c = r8genPartial(r, len(m.lit), raw)
+			}
+			st.Inc("fetch.kind=" + kind)
+			fmt.Fprintf(w, "%s %s %s %s %s %s %s %s\n", name, r8hex(m.lit), r8showPath(p), kind, names, b, c, r8ctTable(m.lit))
 		}
-		if strings.HasPrefix(kind, "FIELDS") {
-			names = r8hexList(r8genNames(r))
-		}
-		if !strings.HasPrefix(kind, "RFC822") {
-			b, c = r8genPartial(r, len(m.lit))
-		}
-		st.Inc("fetch.kind=" + kind)
-		fmt.Fprintf(w, "fetch-sect %s %s %s %s %s %s %s\n", r8hex(m.lit), r8showPath(p), kind, names, b, c, r8ctTable(m.lit))
 	}
 }
 
@@ -815,7 +833,10 @@ func init() {
 	Register(&Dialect{Name: "rfc822-hdr", Impl: r8implHdr, Gen: r8genHdr})
 	Register(&Dialect{Name: "rfc822-sect", Impl: r8implSect, Gen: r8genSect})
 	Register(&Dialect{Name: "rfc822-splice", Impl: r8implSplice, Gen: r8genSplice})
-	Register(&Dialect{Name: "fetch-partial", Impl: r8implPartial, Gen: r8genPartialOps})
-	Register(&Dialect{Name: "fetch-sect", Impl: r8implFetchSect, Gen: r8genFetchSect})
+	Register(&Dialect{Name: "fetch-partial", Impl: r8implPartial, Gen: r8genPartialStream("fetch-partial", false)})
+	Register(&Dialect{Name: "fetch-sect", Impl: r8implFetchSect, Gen: r8genFetchSectStream("fetch-sect", false)})
+	// the same functions outside the parser's number range (int64 overflow, negative begin): model against code only
+	Register(&Dialect{Name: "fetch-partial-raw", Impl: r8implPartial, Gen: r8genPartialStream("fetch-partial-raw", true)})
+	Register(&Dialect{Name: "fetch-sect-raw", Impl: r8implFetchSect, Gen: r8genFetchSectStream("fetch-sect-raw", true)})
 	Register(&Dialect{Name: "fetch-rel", Impl: r8implFetchRel, Gen: r8genFetchRel})
 }
